@@ -213,7 +213,8 @@ type reader struct {
 	derrs []string
 	lost  uint64
 
-	state     string // none playing paused gone
+	notify    chan struct{} // poked by the packet callback
+	state     string        // none playing paused gone
 	ivs       []*interval
 	announced map[int]*uint32 // media -> SSRC of the SETUP response
 	chans     map[int][2]int  // media -> interleaved channel pair of the SETUP response
@@ -228,6 +229,23 @@ type reader struct {
 	have map[int]bool
 	next map[int]uint16
 	gap  map[int]bool
+}
+
+// waitFor waits until cond holds; it is re-evaluated whenever a packet arrives (no polling, no sleeping: the
+// wall clock only bounds the wait as the hang detector).
+func (r *reader) waitFor(cond func() bool) bool {
+	deadline := time.NewTimer(sysx.HangLimit)
+	defer deadline.Stop()
+	for {
+		if cond() {
+			return true
+		}
+		select {
+		case <-r.notify:
+		case <-deadline.C:
+			return cond()
+		}
+	}
 }
 
 func (r *reader) nGot() int { r.mu.Lock(); defer r.mu.Unlock(); return len(r.got) }
@@ -490,7 +508,7 @@ func (w *world) reader(i int) *reader {
 		if len(w.readers) == 1 && w.cfg.Rd2 != "" {
 			tr = w.cfg.Rd2
 		}
-		w.readers = append(w.readers, &reader{id: len(w.readers), tr: tr, state: "none", tags: map[uint64]bool{},
+		w.readers = append(w.readers, &reader{id: len(w.readers), tr: tr, state: "none", tags: map[uint64]bool{}, notify: make(chan struct{}, 1),
 			announced: map[int]*uint32{}, chans: map[int][2]int{}, ports: map[int][2]int{},
 			have: map[int]bool{}, next: map[int]uint16{}, gap: map[int]bool{}})
 	}
@@ -547,6 +565,10 @@ func (w *world) join(r *reader) error {
 						r.tags[binary.BigEndian.Uint64(g.Payload)] = true
 					}
 					r.mu.Unlock()
+					select {
+					case r.notify <- struct{}{}:
+					default:
+					}
 				})
 			}
 		}
@@ -668,7 +690,7 @@ func (w *world) barrier(wait []*reader) int {
 	}
 	top := last[len(last)-1]
 	for _, r := range wait {
-		ok := sysx.WaitFor(func() bool {
+		ok := r.waitFor(func() bool {
 			for _, li := range last {
 				if w.written[li].Err == "" && !r.hasTag(tagMagic|uint64(li)) {
 					return false
